@@ -98,6 +98,12 @@ def group_runs(g, tier):
                 runs.append(dict(kind='tree2', cfg1=c1, cfg2=c2, names=['ascii', 'prefix', 'dotted', 'multi'][k % 4], b=[1, 1, 4096, 8193][k % 4] if q else [1, 2731, 8193, 21846][k % 4],
                                  frac=(0.004 if heavy else 0.008) if q else 0.25, inst='MC_Tree2_q', tspec='Trace_Tree2'))
         return runs
+    if g == 'faults':
+        k = 1 if q else 15
+        cfgs = [('fault(mem)', 60, False), ('alt(zr,fault(mem))', 40, False), ('ovl(fault(mem),mem)', 40, True), ('ovl(mem,fault(mem))', 60, True),
+                ('ovl(fault(mem),mem,mem)', 20, True), ('ovl(mem,mem,fault(mem))', 30, True), ('alt(zr,ovl(fault(mem),mem))', 15, True), ('ovl(alt(zu,fault(mem)),mem)', 15, True)]
+        runs = [dict(kind='faults', cfg=c, pairs=n * k, split=sp, names=['ascii', 'prefix', 'dotted'][i % 3], lts='small' if i % 2 == 0 else 'deep', tspec='Trace_Tree') for i, (c, n, sp) in enumerate(cfgs)]
+        return runs
     if g in ('conc16', 'conc17'):
         return [dict(kind='conc', prop='C16' if g == 'conc16' else 'C17', tspec='Trace_Lin')]
     if g == 'join':
@@ -168,6 +174,19 @@ def run_group(g, tier, seed, use_cache=True):
             l2 = ensure_lts(r['inst'], r['inst'] + '_emit')
             s = harness(['tree2', '--lts', l2, '--cfg1', r['cfg1'], '--cfg2', r['cfg2'], '--names', r['names'], '--b', r['b'], '--frac', r['frac'],
                          '--seed', seed * 1000 + i, '--out', out])
+        elif r['kind'] == 'faults':
+            inst = r['lts']
+            if inst not in ltsfiles:
+                mod, cfg = LTS_INSTANCES[inst]
+                mc = run_mc(mod, cfg)
+                if not mc['ok']:
+                    raise ToolError('model checking of %s failed:\n%s' % (mod, mc.get('tail', '')))
+                mcs[inst] = mc
+                ltsfiles[inst] = ensure_lts(mod, cfg + '_emit')
+            args = ['faults', '--lts', ltsfiles[inst], '--cfg', r['cfg'], '--names', r['names'], '--pairs', r['pairs'], '--seed', seed * 1000 + i, '--out', out]
+            if r['split']:
+                args.append('--split')
+            s = harness(args)
         elif r['kind'] == 'conc':
             mname = 'MC_Conc' if r['prop'] == 'C16' else 'MC_Conc17'
             mc = run_mc(mname, mname, workers=16)
@@ -246,7 +265,7 @@ def run_group(g, tier, seed, use_cache=True):
                         break
                     ops.append({'init': e['cfg'], 'names': e['names'], 'b': e['b']})
                 else:
-                    ops.append({'op': e['op'], 'p': e['p'], 'q': e['q'], 'c': e['c'], 'res': e['res']['c']})
+                    ops.append({'op': e['op'], 'p': e['p'], 'q': e['q'], 'c': e['c'], 'res': e['res']['c']} | ({'fault_k': e['k'], 'of_n': e['n'], 'failed_method': e['method']} if e['ev'] == 'fcall' else {}))
                 if len(ops) > 12:
                     break
             samples.append(ops)
@@ -277,6 +296,7 @@ PROPS = {
     'C08': dict(groups=['ovl']),
     'C09': dict(groups=['ovl']),
     'C06': dict(groups=['join']),
+    'C20': dict(groups=['faults']),
     'C16': dict(groups=['conc16']),
     'C17': dict(groups=['conc17']),
     'C11': dict(groups=['xfer', 'tree', 'alt', 'ovl']),
@@ -408,6 +428,12 @@ MANIFEST_TEXT = {
                 'TLC checks on every distinct history: all calls ok, every requested path and ancestor is a directory, tree well-formed, no panic/deadlock.',
                 note='Trusted: TLC; the scheduler. PhysicalFS interleavings are explored at create_dir granularity (the OS is not modelled below the syscall boundary).',
                 technique='schedule exploration (hooks) + TLC trace validation (Trace_Lin)', ref='DESIGN.md 6 C17'),
+    'C20': dict(level='Fault enumeration judged by TLC: a FaultFS wrapper (public FileSystem trait) makes the k-th call into a base filesystem return an I/O error. For seeded (model state, operation) pairs of the Level-A LTS '
+                '(biased to composites and adapter operations) and for observer operations (exists, is_dir, is_file, metadata, read_dir, walk_dir, read_to_string), the fault-free run is probed for its call count n and the operation is re-run '
+                'on an identically rebuilt world for EVERY k in 1..n, on plain, altroot, overlay (fault in the upper or in a lower layer, 2-3 layers) and nested stackings. TLC (Trace_Tree/TrFault) accepts success only with the complete Level-A effect and value, '
+                'and requires: no panic, namespace still a tree, lower layers unchanged, observers change nothing.',
+                note=_NOTE + ' One fault per operation; the fault is an Err return of a trait method (handles returned by the base filesystem are not faulted).',
+                technique='exhaustive fault-position sweep (FaultFS) + TLA+ Level-A trace validation (TrFault)', ref='DESIGN.md 6 C20'),
     'C12': dict(level=_LVL + 'Conjunct errpath: every error of every call and observer names a path of the caller namespace related to the call; pinned classes are part of conjunct class.',
                 note=_NOTE, technique='TLA+ ErrPathOK on every failing call/observer of every trace event', ref='DESIGN.md 6 C12'),
     'C13': dict(level=_LVL + 'Every harness call runs under catch_unwind; panic is an outcome class no trace action accepts.',
